@@ -170,7 +170,10 @@ def run(c, chk):
                         msg = rp.calls('cfg_error')[0]
                         fmt = msg.args[1][1] if msg.args[1][0] == 'str' else '?'
                         simple = not any('strndup' == x.name for x in rp.events if x.kind == 'call')
-                        k_ = 'resolver-diag-on-accept:state%d:%s' % (s, 'simple' if simple else 'path')
+                        # (the flag that makes the parser accept is part of the identity: a report under
+                        # ignore-unknown is another defect than one in a free-form section)
+                        on = '+'.join(sorted(k.split(' has ')[1] for k, v in mine.items() if v)) or 'none'
+                        k_ = 'resolver-diag-on-accept:state%d:%s:%s' % (s, 'simple' if simple else 'path', on)
                         if k_ in reported_rd:
                             continue
                         reported_rd.add(k_)
